@@ -8,9 +8,9 @@ import os
 from . import common
 
 
-def edge_run(ctx, cfg, what, extra=(), workers=1, timeout=3600):
+def edge_run(ctx, cfg, what, extra=(), workers=1, timeout=3600, scribble=False):
     out_dir = ctx.subdir("trk-" + cfg.replace(".cfg", ""))
-    rc, out, tl = ctx.pipe_tlc_to_drv("MCTracker.tla", cfg, ["trk-edges", "-out", out_dir, "-me", "a"],
+    rc, out, tl = ctx.pipe_tlc_to_drv("MCTracker.tla", cfg, ["trk-edges", "-out", out_dir, "-me", "a"] + ([] if scribble else ["-noscribble"]),
                                       workers=workers, extra=extra, timeout=timeout, what=what)
     s = ctx.summary_line(out)
     if s is None or rc not in (0, 1):
@@ -22,7 +22,7 @@ def edge_run(ctx, cfg, what, extra=(), workers=1, timeout=3600):
     return s
 
 
-def collect(ctx, s, want_prop):
+def collect(ctx, s, want_prop, all_kinds=False):
     """turn driver failures into violations of want_prop ('C12' or 'C14')"""
     import json
     for f in s.get("failure_files") or []:
@@ -30,9 +30,9 @@ def collect(ctx, s, want_prop):
             j = json.load(open(f))
         except Exception:
             continue
-        if j.get("property") != want_prop:
+        if j.get("property") != want_prop and not all_kinds:
             continue
-        sig = "%s:%s:%s" % (j["kind"], j["call"]["Op"], len(j["path"]))
+        j["path"] = j.get("path") or []
         rp = ctx.save_replay(f, os.path.basename(f))
         ctx.violation("trk/" + j["kind"] + "/" + j["call"]["Op"], "%s on %s after %d-step history: %s" % (j["kind"], j["call"], len(j["path"]), j["detail"]), rp)
 
@@ -94,9 +94,7 @@ def run(ctx, prop="C12"):
            "rule": "one evaluation = one edge (state, operation, arguments) of TLC's state graph of Tracker.tla replayed on a real tracker "
                    "driven to that state; non-trivial = the edge changes the model state (refused and read-only calls are replayed too but not counted)",
            "exhaustive": True, "op_counts": ops,
-           "values_scribbled": sum(s["values_scribbled"] for _, s in res),
-           "frozen_value_rechecks": sum(s["frozen_value_rechecks"] for _, s in res),
-           "per_config": {n: {k: s[k] for k in ("edges", "states", "state_changing_edges", "failures")} for n, s in res}}
+                      "per_config": {n: {k: s[k] for k in ("edges", "states", "state_changing_edges", "failures")} for n, s in res}}
     return common.finish(ctx, "model_checking", cov)
 
 
